@@ -26,6 +26,14 @@ Definition ex_history : list xevent :=
 
 Definition ex_state (fx : fixes) : xserver := xrun fx ex_history empty_xserver.
 
+(* the same without any kick privilege: 12 lives on another host and may edit bans; 11 also tries to kick and to write elsewhere *)
+Definition ex_history2 : list xevent :=
+  [ XAttach 10%N 1%N 10%N 0%N; XAttach 11%N 1%N 11%N 0%N; XAttach 12%N 2%N 12%N 6%N;
+    XCmd 10%N (XBase (CSubscribe false [(Rel [None], None); (Rel [Some 7%N], None)]));
+    XCmd 11%N (XSetData 0%N [((false, [7%N]), 5%N); ((false, [8%N; 9%N]), 6%N); ((true, [1%N; 10%N; 7%N]), 9%N)]);
+    XCmd 11%N (XCode c_PR_COMMAND_KICK [(Abs [None; None], None)]);
+    XCmd 12%N (XBase (CSubscribe false [(Abs [None; None; None], None)])) ].
+
 (* the example instance satisfies the laws the theorems assume of the matching code *)
 #[export] Instance ExLaws : MatchLaws ExOps.
 Proof.
